@@ -207,8 +207,9 @@ Proof. intros. unfold p_count. now rewrite p_unique_thaw. Qed.
 Lemma p_mtt_thaw : forall st o c z, p_mtt (thaw st) o c z = p_mtt st o c z.
 Proof.
   intros. unfold p_mtt. rewrite has_obj_thaw, p_attr_thaw.
-  destruct (has_obj st o); auto. destruct (p_attr st o SModelRec) as [[l|]|e]; auto. simpl.
-  rewrite (mapR_ext (mtt_item (thaw st) c z) (mtt_item st c z)); auto.
+  destruct (has_obj st o); [|reflexivity]. destruct (p_attr st o SModelRec) as [[l|]|e]; [|reflexivity|reflexivity].
+  cbn [rbind r_list].
+  rewrite (mapR_ext (mtt_item (thaw st) c z) (mtt_item st c z)); [reflexivity|].
   intros it _. unfold mtt_item. now rewrite kind_of_thaw, p_count_thaw.
 Qed.
 
